@@ -316,9 +316,16 @@ where
             }
         };
 
-        sink.close()
+        // A failing close must not skip the terminal event: it fails a so far successful session,
+        // an error which occurred earlier takes precedence.
+        let close_result = sink
+            .close()
             .await
-            .map_err(|err| TopicLogSyncChannelError::MessageSink(format!("{err:?}")))?;
+            .map_err(|err| TopicLogSyncChannelError::MessageSink(format!("{err:?}")));
+        let result = match (result, close_result) {
+            (Ok(()), Err(err)) => Err(err.into()),
+            (result, _) => result,
+        };
 
         let final_event = match result.as_ref() {
             Ok(_) => {
